@@ -18,6 +18,7 @@ import itertools
 import math
 from fractions import Fraction as F
 
+import random
 import numpy as np
 
 from . import proto
@@ -244,7 +245,10 @@ def gen_case(rng, tier, small=False):
         rng.shuffle(perm)
     kinds = ["default", "perm", "perm", "offset", "str"]
     query = gen_query(rng, rows)
-    return {"query": query, "pseed": rng.randrange(10 ** 6), "constraint": cons, "objective": obj, "flip": rng.random() < 0.5,
+    pseed = rng.randrange(10 ** 6)
+    # "history": the ThresholdOptimizer object under test had a PREVIOUS LIFE (fit on other data with one extra group, one
+    # _pmf_predict / predict) before the fit that is judged; derived from the case's own seed, the main stream is not disturbed
+    return {"query": query, "pseed": pseed, "history": random.Random(pseed).random() < 0.3, "constraint": cons, "objective": obj, "flip": rng.random() < 0.5,
             "grid": rng.choice(GRIDS if not small else [1, 2, 3, 5, 7, 10, 10, 100]),
             "rows": rows, "container": rng.choice(["ndarray", "ndarray2d", "list", "list2d", "series", "series",
                                                    "dataframe", "dataframe"]),
@@ -398,6 +402,8 @@ def midpoint_rounds_onto_score(case):
 def shrink_case(case):
     rows = case["rows"]
     gs = sorted({r[0] for r in rows})
+    if case.get("history"):
+        yield dict(case, history=False)
     if len(gs) > 2:
         for g in gs:
             yield _drop_rows(case, {k for k, r in enumerate(rows) if r[0] != g})
@@ -450,6 +456,25 @@ def _thr(t):
     return str(F(t))
 
 
+def previous_life(to, scores, y, sf, extra_group):
+    """Give the estimator object a previous life before the fit that is judged: fit it on an auxiliary data set -- the rows
+    reversed, the labels inverted, plus ONE EXTRA sensitive-feature group the real data lack (a badly ranked one: its ROC
+    curve is the diagonal, so stale per-group state would visibly lower a minimum over groups) -- and predict once.  Every
+    clause of C04 / C05 / C13 is about the fitted state after the LAST fit, so the judge is unchanged.  A ValueError of the
+    auxiliary fit (degenerate auxiliary labels) just means: no previous life."""
+    scores = np.asarray(scores, dtype=float).reshape(-1)
+    lo, hi = float(scores.min()) - 1.0, float(scores.max()) + 1.0
+    Xa = np.concatenate([scores[::-1], [lo, hi, lo, hi]]).reshape(-1, 1)
+    ya = np.concatenate([1 - np.asarray(y, dtype=int).reshape(-1)[::-1], [1, 0, 0, 1]])
+    sa = list(sf)[::-1] + [extra_group] * 4
+    try:
+        to.fit(Xa, ya, sensitive_features=sa)
+        to._pmf_predict(Xa[:3], sensitive_features=sa[:3])
+        to.predict(Xa[-2:], sensitive_features=sa[-2:], random_state=0)
+    except ValueError:
+        pass
+
+
 def run_impl(case):
     import pandas as pd
     from fairlearn.postprocessing import ThresholdOptimizer
@@ -484,6 +509,8 @@ def run_impl(case):
     to = ThresholdOptimizer(estimator=_estimator(), prefit=True, predict_method="predict",
                             constraints=case["constraint"], objective=case["objective"],
                             grid_size=case["grid"], flip=case["flip"])
+    if case.get("history"):
+        previous_life(to, scores, y, sf, gname(case, max(r[0] for r in rows) + 1))
     try:
         to.fit(X, yv, sensitive_features=sv)
     except ValueError as e:
@@ -866,6 +893,7 @@ def case_tags(case, o):
             for a, b in zip(sorted({s for s, _ in rows[g]}), sorted({s for s, _ in rows[g]})[1:]) if max(abs(a), abs(b)) > 0]
     if gaps and min(gaps) < 1e-6:
         tags.append("near-tie-scores(rel gap " + ("<1e-12" if min(gaps) < 1e-12 else "<1e-9" if min(gaps) < 1e-9 else "<1e-6") + ")")
+    tags.append("history=refit-after-a-previous-life" if case.get("history") else "history=fresh")
     if case.get("query"):
         tags.append("predict-path-query")
         if any(g == -1 for g, _ in case["query"]):
